@@ -1,4 +1,4 @@
-//! C05 over the real TCP transport: small networks of real `Litep2p` nodes on loopback, driven
+//! C05 over the real transports (TCP, WebSocket, QUIC; one kind or a mix per world): small networks of real `Litep2p` nodes on loopback, driven
 //! through the public API under a schedule-perturbing executor. Every node logs its commands
 //! (with return values) and the events it reports; TLC validates each node's log against
 //! `spec/NetDial.tla` (one outcome per accepted dial, no duplicate failure, no silence at
@@ -8,7 +8,10 @@ use litep2p::{
     config::ConfigBuilder,
     crypto::ed25519::Keypair,
     executor::Executor,
-    transport::{tcp::config::Config as TcpConfig, ConnectionLimitsConfig},
+    transport::{
+        quic::config::Config as QuicConfig, tcp::config::Config as TcpConfig, websocket::config::Config as WsConfig,
+        ConnectionLimitsConfig,
+    },
     Litep2p, Litep2pEvent, PeerId,
 };
 use multiaddr::{Multiaddr, Protocol};
@@ -128,11 +131,35 @@ async fn node_task(mut node: Litep2p, mut rx: mpsc::Receiver<Cmd>, log: Log, nam
 // ------------------------------------------------------------------ dead endpoints
 
 /// Returns (address, guard task). kinds: refused (closed port), blackhole (accepts, silent),
-/// garbage (accepts, writes junk, closes).
-async fn dead_endpoint(kind: &str) -> (Multiaddr, Option<tokio::task::JoinHandle<()>>) {
+/// garbage (accepts, writes junk, closes). `tk` is the transport kind of the address: tcp, ws
+/// (the same TCP endpoints behind a /ws address) or quic (UDP sockets).
+async fn dead_endpoint(kind: &str, tk: &str) -> (Multiaddr, Option<tokio::task::JoinHandle<()>>) {
+    if tk == "quic" {
+        let u = tokio::net::UdpSocket::bind("127.0.0.1:0").await.unwrap();
+        let port = u.local_addr().unwrap().port();
+        let addr: Multiaddr = format!("/ip4/127.0.0.1/udp/{port}/quic-v1").parse().unwrap();
+        return match kind {
+            "refused" => {
+                drop(u);
+                (addr, None)
+            }
+            "blackhole" => (addr, Some(tokio::spawn(async move {
+                let _keep = u;
+                futures::future::pending::<()>().await;
+            }))),
+            _ => (addr, Some(tokio::spawn(async move {
+                let mut buf = [0u8; 2048];
+                loop {
+                    if let Ok((_, from)) = u.recv_from(&mut buf).await {
+                        let _ = u.send_to(b"\xff\xff\xff garbage, not a quic packet", from).await;
+                    }
+                }
+            }))),
+        };
+    }
     let l = tokio::net::TcpListener::bind("127.0.0.1:0").await.unwrap();
     let port = l.local_addr().unwrap().port();
-    let addr: Multiaddr = format!("/ip4/127.0.0.1/tcp/{port}").parse().unwrap();
+    let addr: Multiaddr = format!("/ip4/127.0.0.1/tcp/{port}{}", if tk == "ws" { "/ws" } else { "" }).parse().unwrap();
     match kind {
         "refused" => {
             drop(l);
@@ -162,7 +189,8 @@ async fn dead_endpoint(kind: &str) -> (Multiaddr, Option<tokio::task::JoinHandle
 struct NodeH {
     name: String,
     peer: PeerId,
-    addr: Multiaddr,
+    /// listen address (with /p2p) and its abstract name, per transport kind tcp / ws / quic
+    addrs: Vec<(Multiaddr, String)>,
     tx: mpsc::Sender<Cmd>,
     log: Log,
     task: tokio::task::JoinHandle<()>,
@@ -187,6 +215,8 @@ fn canary() -> (Arc<AtomicU64>, tokio::task::JoinHandle<()>) {
 
 async fn run_world(w: usize, seed: u64, steps: usize) -> Vec<String> {
     let mut rng = StdRng::seed_from_u64(seed);
+    // transport kind of the world: one transport only, or every dial picks one
+    let tk = ["tcp", "tcp", "ws", "quic", "mix"][w % 5];
     let (lag, canary_task) = canary();
     let names = Arc::new(Mutex::new(HashMap::new()));
     let anames = Arc::new(Mutex::new(HashMap::new()));
@@ -204,27 +234,55 @@ async fn run_world(w: usize, seed: u64, steps: usize) -> Vec<String> {
                 substream_open_timeout: Duration::from_millis(1000),
                 ..Default::default()
             })
+            .with_websocket(WsConfig {
+                listen_addresses: vec!["/ip4/127.0.0.1/tcp/0/ws".parse().unwrap()],
+                connection_open_timeout: Duration::from_millis(1000),
+                substream_open_timeout: Duration::from_millis(1000),
+                ..Default::default()
+            })
+            .with_quic(QuicConfig {
+                listen_addresses: vec!["/ip4/127.0.0.1/udp/0/quic-v1".parse().unwrap()],
+                connection_open_timeout: Duration::from_millis(1000),
+                substream_open_timeout: Duration::from_millis(1000),
+                ..Default::default()
+            })
             .with_connection_limits(ConnectionLimitsConfig::default().max_incoming_connections(mi).max_outgoing_connections(mo))
             .with_keep_alive_timeout(Duration::from_millis([300u64, 800, 5000][rng.gen_range(0..3)]))
             .with_executor(Arc::new(PerturbExec { seed: AtomicU64::new(seed ^ (i as u64 + 1) * 7919) }))
             .build();
         let node = Litep2p::new(cfg).unwrap();
         let peer = *node.local_peer_id();
-        let addr = node.listen_addresses().next().unwrap().clone();
         let name = format!("n{i}");
         names.lock().unwrap().insert(peer, name.clone());
-        anames.lock().unwrap().insert(addr.clone(), format!("{name}a"));
+        let mut addrs = vec![];
+        for (suffix, pick) in [("a", "tcp"), ("w", "ws"), ("q", "quic")] {
+            let a = node
+                .listen_addresses()
+                .find(|a| match pick {
+                    "ws" => a.iter().any(|p| matches!(p, Protocol::Ws(_))),
+                    "quic" => a.iter().any(|p| matches!(p, Protocol::QuicV1)),
+                    _ => a.iter().any(|p| matches!(p, Protocol::Tcp(_))) && !a.iter().any(|p| matches!(p, Protocol::Ws(_))),
+                })
+                .unwrap_or_else(|| panic!("no {pick} listen address"))
+                .clone();
+            anames.lock().unwrap().insert(a.clone(), format!("{name}{suffix}"));
+            addrs.push((a, format!("{name}{suffix}")));
+        }
         let (tx, rx) = mpsc::channel(64);
         let log: Log = Arc::new(Mutex::new(vec![]));
         let task = tokio::spawn(node_task(node, rx, log.clone(), names.clone(), anames.clone()));
         cfgs.push(json!({"maxIn": mi.map(|x| x as i64).unwrap_or(-1), "maxOut": mo.map(|x| x as i64).unwrap_or(-1)}));
-        nodes.push(NodeH { name, peer, addr, tx, log, task });
+        nodes.push(NodeH { name, peer, addrs, tx, log, task });
     }
     // dead endpoints, each claimed for a ghost peer
     let mut dead = vec![];
     let mut guards = vec![];
     for (k, kind) in ["refused", "blackhole", "garbage"].iter().enumerate() {
-        let (a, g) = dead_endpoint(kind).await;
+        let dk = match tk {
+            "mix" => ["tcp", "ws", "quic"][k % 3],
+            t => t,
+        };
+        let (a, g) = dead_endpoint(kind, dk).await;
         let ghost = PeerId::random();
         let gname = format!("g{k}");
         names.lock().unwrap().insert(ghost, gname.clone());
@@ -235,19 +293,29 @@ async fn run_world(w: usize, seed: u64, steps: usize) -> Vec<String> {
             guards.push(g);
         }
     }
-    let full_addr = |n: &NodeH| n.addr.clone();
+    // the address (and its name) under which a live node is dialed in this world
+    let kinds = move |rng: &mut StdRng| match tk {
+        "tcp" => 0,
+        "ws" => 1,
+        "quic" => 2,
+        _ => rng.gen_range(0..3),
+    };
+    let without_p2p = |a: &Multiaddr| -> Multiaddr { a.iter().filter(|p| !matches!(p, Protocol::P2p(_))).collect() };
     // scripted steps
     for _ in 0..steps {
         let i = rng.gen_range(0..3);
         let j = (i + rng.gen_range(1..3)) % 3;
         match rng.gen_range(0..10) {
             0..=3 => {
-                let _ = nodes[i].tx.send(Cmd::DialAddr(full_addr(&nodes[j]), format!("{}a", nodes[j].name), nodes[j].name.clone())).await;
+                let (a, an) = nodes[j].addrs[kinds(&mut rng)].clone();
+                let _ = nodes[i].tx.send(Cmd::DialAddr(a, an, nodes[j].name.clone())).await;
             }
             4 => {
                 // simultaneous dial in both directions
-                let _ = nodes[i].tx.send(Cmd::DialAddr(full_addr(&nodes[j]), format!("{}a", nodes[j].name), nodes[j].name.clone())).await;
-                let _ = nodes[j].tx.send(Cmd::DialAddr(full_addr(&nodes[i]), format!("{}a", nodes[i].name), nodes[i].name.clone())).await;
+                let (a, an) = nodes[j].addrs[kinds(&mut rng)].clone();
+                let (b, bn) = nodes[i].addrs[kinds(&mut rng)].clone();
+                let _ = nodes[i].tx.send(Cmd::DialAddr(a, an, nodes[j].name.clone())).await;
+                let _ = nodes[j].tx.send(Cmd::DialAddr(b, bn, nodes[i].name.clone())).await;
             }
             5 | 6 => {
                 let d = &dead[rng.gen_range(0..dead.len())];
@@ -257,7 +325,7 @@ async fn run_world(w: usize, seed: u64, steps: usize) -> Vec<String> {
                 // an address of a live node claimed for a ghost peer: handshake yields another identity
                 let ghost = PeerId::random();
                 names.lock().unwrap().insert(ghost, "gx".into());
-                let base: Multiaddr = nodes[j].addr.iter().take(2).collect();
+                let base = without_p2p(&nodes[j].addrs[kinds(&mut rng)].0);
                 let a = base.with(Protocol::P2p(ghost.into()));
                 anames.lock().unwrap().insert(a.clone(), "gxa".into());
                 let _ = nodes[i].tx.send(Cmd::DialAddr(a, "gxa".into(), "gx".into())).await;
@@ -265,10 +333,10 @@ async fn run_world(w: usize, seed: u64, steps: usize) -> Vec<String> {
             _ => {
                 // dial by peer id over several known addresses (dead ones first or last)
                 let d = &dead[rng.gen_range(0..dead.len())];
-                let base: Multiaddr = d.0.iter().take(2).collect();
+                let base = without_p2p(&d.0);
                 let dead_for_j = base.with(Protocol::P2p(nodes[j].peer.into()));
                 anames.lock().unwrap().insert(dead_for_j.clone(), format!("{}d", nodes[j].name));
-                let mut addrs = vec![full_addr(&nodes[j]), dead_for_j];
+                let mut addrs = vec![nodes[j].addrs[kinds(&mut rng)].0.clone(), dead_for_j];
                 if rng.gen_bool(0.5) {
                     addrs.reverse();
                 }
@@ -309,7 +377,8 @@ async fn run_world(w: usize, seed: u64, steps: usize) -> Vec<String> {
             for j in 0..3 {
                 if i != j {
                     nodes[i].log.lock().unwrap().push(json!({"e": "probe", "peer": nodes[j].name}));
-                    let _ = nodes[i].tx.send(Cmd::DialAddr(full_addr(&nodes[j]), format!("{}a", nodes[j].name), nodes[j].name.clone())).await;
+                    let (a, an) = nodes[j].addrs[kinds(&mut rng)].clone();
+                    let _ = nodes[i].tx.send(Cmd::DialAddr(a, an, nodes[j].name.clone())).await;
                     tokio::time::sleep(Duration::from_millis(50)).await;
                 }
             }
@@ -337,7 +406,7 @@ async fn run_world(w: usize, seed: u64, steps: usize) -> Vec<String> {
     let mut out = vec![];
     for (i, n) in nodes.iter().enumerate() {
         let _ = n.tx.send(Cmd::Stop).await;
-        out.push(json!({"e": "reset", "w": w, "node": n.name, "seed": seed, "cfg": cfgs[i]}).to_string());
+        out.push(json!({"e": "reset", "w": w, "node": n.name, "seed": seed, "cfg": cfgs[i], "transport": tk}).to_string());
         for (s, l) in n.log.lock().unwrap().iter().enumerate() {
             let mut l = l.clone();
             l["seq"] = json!(s);
